@@ -77,11 +77,12 @@ extern "C" void h_parfor(void)
 extern "C" void h_invoke(void)
 {
 	vp_sched_budget(vp_param(0));
-	int k = vp_param(1);
+	int k = vp_param(1), slow = vp_param(2);      // natively one of the functions takes its time (the schedules the engine explores)
 	int a = 0, b = 0, c = 0, d = 0;
-	if (k == 2) Thread::parallel_invoke([&]() { a++; }, [&]() { b++; });
-	else if (k == 3) Thread::parallel_invoke([&]() { a++; }, [&]() { b++; }, [&]() { c++; });
-	else Thread::parallel_invoke([&]() { a++; }, [&]() { b++; }, [&]() { c++; }, [&]() { d++; });
+	#define SLOW(i) if (slow == i && !vp_symbolic_run()) usleep(40000)
+	if (k == 2) Thread::parallel_invoke([&]() { SLOW(1); a++; }, [&]() { SLOW(2); b++; });
+	else if (k == 3) Thread::parallel_invoke([&]() { SLOW(1); a++; }, [&]() { SLOW(2); b++; }, [&]() { SLOW(3); c++; });
+	else Thread::parallel_invoke([&]() { SLOW(1); a++; }, [&]() { SLOW(2); b++; }, [&]() { SLOW(3); c++; }, [&]() { SLOW(4); d++; });
 	vp_assert(a == 1 && b == 1 && (k < 3 || c == 1) && (k < 4 || d == 1), "parallel_invoke ran every function exactly once before returning");
 	vp_assert(c <= 1 && d <= 1 && (k >= 3 || c == 0) && (k >= 4 || d == 0), "parallel_invoke ran no other function");
 	vp_note(a + b + c + d);
@@ -200,5 +201,31 @@ extern "C" void h_functor2(void)
 	}
 	vp_assert(cnt[0] == 1 && cnt[1] == 1, "each of two function-object threads of the same type ran its own function exactly once");
 	vp_note(cnt[0] + cnt[1]);
+	vp_reach(1);
+}
+
+// parallel_for with a function object whose copy is slow in the worker threads natively (holds each worker inside the
+// hand-over of its start-up context): p1 = range length, p2 = thread count
+struct SlowCopyN
+{
+	int* cnt; int pad[6];
+	SlowCopyN(int* c) : cnt(c) { for (int j = 0; j < 6; j++) pad[j] = 7; }
+	SlowCopyN(const SlowCopyN& o) : cnt(o.cnt)
+	{
+		if (!vp_symbolic_run() && !pthread_equal(pthread_self(), g_creator)) usleep(20000);
+		for (int j = 0; j < 6; j++) pad[j] = o.pad[j];
+	}
+	void operator()(int i) const { if (i >= 0 && i < 16) cnt[i]++; else cnt[16]++; }
+};
+extern "C" void h_parfor_functor(void)
+{
+	vp_sched_budget(vp_param(0));
+	g_creator = pthread_self();
+	int n = vp_param(1), nth = vp_param(2);
+	int cnt[17]; for (int i = 0; i < 17; i++) cnt[i] = 0;
+	Thread::parallel_for(0, n, SlowCopyN(cnt), nth);
+	for (int i = 0; i < 16; i++) vp_assert(cnt[i] == (i < n ? 1 : 0), "parallel_for with a function object: every index exactly once");
+	vp_assert(cnt[16] == 0, "parallel_for with a function object: no index outside the range");
+	vp_note(n);
 	vp_reach(1);
 }
